@@ -20,8 +20,8 @@ static Mat unitary(int d, int which) {
 
 struct Family { const char* name; bool normal; double maxnorm; };
 static const Family FAM[] = {{"anti-hermitian", true, 1e3}, {"complex-diagonal", true, 50}, {"nilpotent", false, 50}, {"dense-nonnormal", false, 50}, {"normal-bounded-real", true, 1e3}, {"rank-one", false, 50}, {"block-2+rest", false, 50}, {"strictly-lower-triangular", false, 50}, {"lower-triangular", false, 50}, {"single-offdiagonal-entry", false, 50},
-                             {"zero-row-sums-anti-hermitian", true, 50}, {"decoupled-levels-normal", true, 50}};
-static const int NFAM = 12;
+                             {"zero-row-sums-anti-hermitian", true, 50}, {"decoupled-levels-normal", true, 50}, {"rank-one-nilpotent", false, 50}};
+static const int NFAM = 13;
 
 static Mat shape(int f, int n, int w) {
   Mat m(n);
@@ -43,6 +43,11 @@ static Mat shape(int f, int n, int w) {
     // a normal matrix whose first levels are decoupled from a rotated pair: eigenvalue mu on (..,1,1)/sqrt2 and i*w on (..,1,-1)/sqrt2, zeros elsewhere
     case 11: { cd mu = (w % 2 == 0) ? cd(1.0 / 40, 0) : cd(0.5 / 12, 0), iw = cd(0, 1); int a = n - 2, b = n - 1;
       m(a, a) = (mu + iw) * 0.5; m(b, b) = (mu + iw) * 0.5; m(a, b) = (mu - iw) * 0.5; m(b, a) = (mu - iw) * 0.5; } break;
+    // x y^dagger with y^dagger x = 0 (non-triangular, A^2 = 0 although |A| is far from nilpotent); w odd: plus a 1e-7 perturbation
+    case 12: { std::vector<cd> x(n), y(n); for (int i = 0; i < n; i++) { x[i] = cd(1.0 + 0.2 * i, 0.3 * (i % 2)); y[i] = cd(std::cos(0.8 * i + 0.3), std::sin(0.5 * i)); }
+      cd dot = 0, xx = 0; for (int i = 0; i < n; i++) { dot += std::conj(y[i]) * x[i]; xx += std::conj(x[i]) * x[i]; } for (int i = 0; i < n; i++) y[i] -= std::conj(dot / xx) * x[i];   // now y^dagger x = 0
+      for (int i = 0; i < n; i++) for (int j = 0; j < n; j++) m(i, j) = x[i] * std::conj(y[j]);
+      if (w % 2) { double mx = ref::maxabs(m); for (int i = 0; i < n; i++) for (int j = 0; j < n; j++) m(i, j) += cd(1e-7 * mx * std::sin(1.0 + 2.3 * i + 0.9 * j), 1e-7 * mx * std::cos(0.3 + i - 1.9 * j)); } } break;
     case 6: { m(0, 0) = cd(0.3, 1); m(0, 1) = cd(1, -0.5); m(1, 0) = cd(-0.7, 0.2); m(1, 1) = cd(-0.3, -1); for (int i = 2; i < n; i++) for (int j = 2; j < n; j++) m(i, j) = cd(std::sin(1.0 + 2.3 * i + 0.9 * j + w), (i == j) ? 0.4 : std::cos(i - 1.9 * j)); } break;
   }
   return m;
